@@ -151,7 +151,22 @@ class Gen:
         raise ValueError(ty)
 
     def pos_lit(self, lo=0, hi=5):
-        return ['lit', '%', self.r.randint(lo, hi)]
+        """A small non-negative count / position argument; usually an INTEGER
+        literal, sometimes of another numeric type or a LONG-typed expression
+        (the generated code must convert it)."""
+        r = self.r
+        v = r.randint(lo, hi)
+        x = r.random()
+        if x < 0.7 or not self.p.get('longs', True):
+            return ['lit', '%', v]
+        if x < 0.8:
+            return ['lit', '&', v]
+        if x < 0.88 and self.p.get('floats'):
+            return ['lit', r.choice('!#'), float(v)]
+        if x < 0.94:
+            # LEN(...) is LONG
+            return ['bin', '+', ['fn', 'len', [['lit', '$', 'x' * max(v - lo, 0)]]], ['lit', '%', lo]]
+        return ['bin', '+', ['lit', '&', v], ['lit', '%', 0]]
 
     # -- lvalues --------------------------------------------------------------
 
@@ -653,7 +668,9 @@ class Gen:
             else:
                 e = self.num_expr(sc, depth, RANK[pty])
             if e[0] in ('var', 'idx', 'fld'):
-                e = ['par', e]          # an lvalue in parentheses is passed by value
+                # an lvalue in parentheses (or with a unary plus) is an
+                # expression: passed by value
+                e = ['par', e] if (pty == '$' or r.random() < 0.7) else ['un', 'pos', e]
             args.append(self.bounded(e, sc))
         return args
 
@@ -783,6 +800,12 @@ class Gen:
         return [self.simple(sc)]
 
     def block(self, sc, n, depth):
+        if n > 0 and self.r.random() < 0.04:
+            # a body the optimiser may erase completely: x = x
+            tys = [t for t in self.num_types if sc.scalars_of(t, writable=True)]
+            if tys:
+                v = self.r.choice(sc.scalars_of(self.r.choice(tys), writable=True))
+                return [{'k': 'let', 'lv': ['var', v], 'e': ['var', v]}]
         out = []
         for _ in range(n):
             out += self.statement(sc, depth)
@@ -1289,7 +1312,7 @@ class Gen:
                     for c in (lo, hi):
                         if r.random() < 0.6:
                             deftypes[c] = r.choice(tys)
-        prog = {'deftypes': deftypes, 'strip_single': bool(self.p.get('deftype')) and r.random() < 0.6,
+        prog = {'tabs': r.random() < 0.2, 'deftypes': deftypes, 'strip_single': bool(self.p.get('deftype')) and r.random() < 0.6,
                 'types': self.types, 'main': main,
                 'procs': [{k: v for k, v in p.items()
                            if k in ('kind', 'name', 'params', 'static', 'body')}
@@ -1392,6 +1415,10 @@ def const_expr(r, depth, strings=False, vars=()):
                 return ['bin', r.choice(CMP), a, b]
             return ['fn', 'len', [['bin', '+', a, b]]]
         return ['fn', 'len', [a]]
+    if depth > 0 and r.random() < 0.06:
+        # the type minima have no literal: (-32767 - 1), (-2147483647& - 1&)
+        ty = r.choice('%&')
+        return ['par', ['bin', '-', ['lit', ty, -32767 if ty == '%' else -2147483647], ['lit', ty, 1]]]
     if depth <= 0 or r.random() < 0.25:
         ty = r.choice('%&!#')
         return ['lit', ty, r.choice(BOUNDARY[ty])]
